@@ -549,11 +549,34 @@ func TestC11Server(t *testing.T) {
 	rapid.Check(t, func(t *rapid.T) {
 		sc := genStackCase(t, []string{"std", "std", "chunked", "batched"})
 		sc.Binary = rapid.Bool().Draw(t, "binaryInput")
+		// the cluster proxy's shape: there the key of a request decides which code
+		// path (which node, which ring arc) serves it, so keys vary
+		variedKeys := false
+		if rapid.IntRange(0, 5).Draw(t, "clusterShape") == 0 {
+			sc.Cfg = stack.Config{Shape: "l1only", Lock: "nolock", L1: "cluster", L2: "-"}
+			variedKeys = true
+		}
 		st := stack.Get(sc.Cfg)
 		st.Reset()
 		var in []byte
 		kind := ""
-		switch rapid.IntRange(0, 4).Draw(t, "source") {
+		source := rapid.IntRange(0, 4).Draw(t, "source")
+		if variedKeys && rapid.Bool().Draw(t, "manyKeys") {
+			source = 5
+		}
+		switch source {
+		case 5: // well-formed requests for many different keys (every ring arc of the cluster shape)
+			var stream []byte
+			base := rapid.IntRange(0, 1<<20).Draw(t, "keyBase")
+			for i := 0; i < 64; i++ {
+				k := fmt.Sprintf("key-%d", base+i)
+				c := wire.Cmd{Kind: wire.Get, Keys: []string{k}, Opaque: uint32(i + 1)}
+				if i%4 == 3 {
+					c = wire.Cmd{Kind: wire.Set, Key: k, Value: []byte("v"), Opaque: uint32(i + 1)}
+				}
+				stream = append(stream, encodeCmd(sc.Binary, c)...)
+			}
+			in, kind = stream, "many-keys"
 		case 4: // consistent frames whose key is longer than memcached's 250 bytes
 			var stream []byte
 			for i := 0; i < rapid.IntRange(1, 3).Draw(t, "pipeline"); i++ {
@@ -598,6 +621,14 @@ func TestC11Server(t *testing.T) {
 				}
 				if len(c.Key) > 0 {
 					c.Key = "k"
+					if variedKeys {
+						c.Key = fmt.Sprintf("k%d", rapid.IntRange(0, 4095).Draw(t, "keyNo"))
+					}
+				}
+				for j := range c.Keys {
+					if variedKeys {
+						c.Keys[j] = fmt.Sprintf("k%d", rapid.IntRange(0, 4095).Draw(t, "keyNo"))
+					}
 				}
 				stream = append(stream, encodeCmd(sc.Binary, c)...)
 			}
